@@ -211,6 +211,10 @@ pub struct PlanA {
     /// interleaved work for other tasks
     #[serde(default)]
     pub foreign: Vec<Foreign>,
+    /// the client runs the generic-constructor twin of an instance that the aggregators built with a named
+    /// constructor (same documented parameters): the two must interoperate
+    #[serde(default)]
+    pub cross_client: bool,
     /// combiner proceeds with whatever it holds once the transport is idle
     #[serde(default)]
     pub timeouts: bool,
@@ -754,7 +758,11 @@ impl<'p, 'c, 'cc, V: SimVdaf<VK>, A: Adapter<V>, const VK: usize> World<'p, 'c, 
             let mut nonce = [0u8; 16];
             nonce.copy_from_slice(&rep.nonce.0);
             self.foreign_point();
-            let r = self.ad.shard(self.vdaf, &self.plan.ctx.0, &rep.meas, &nonce, &rep.rand.0, rep.evil);
+            let client: &V = if self.plan.cross_client { self.ad.generic_twin().unwrap_or(self.vdaf) } else { self.vdaf };
+            if self.plan.cross_client && self.ad.generic_twin().is_some() {
+                self.ctx.probe("client_on_generic_twin_of_named_instance");
+            }
+            let r = self.ad.shard(client, &self.plan.ctx.0, &rep.meas, &nonce, &rep.rand.0, rep.evil);
             self.ctx.trace.str("shard").u64(ri as u64);
             match r {
                 Ok((mut public, mut inputs)) => {
